@@ -1,7 +1,7 @@
 (* C08 — facts about the loader model: inversion of the parsing functions, path validity,
    sizes, the prefix check, piece count, info hash. *)
 From Coq Require Import List NArith ZArith Bool Lia Sorting.Sorted Sorting.Permutation.
-From LTV Require Import Common.Bytes Params_gen.
+From LTV Require Import Common.Bytes.
 From LTV.C07 Require Import Model.
 From LTV.C08 Require Import Model ProofsOrder.
 Import ListNotations.
@@ -276,11 +276,11 @@ Proof.
   destruct (lookup k m) as [old|]; [destruct (same_type old v); [exact Hm|]|]; apply int64_ok_map_insert; assumption.
 Qed.
 
-Lemma int64_ok_magnet : forall m uri m',
-  parse_magnet_uri m uri = LOk m' -> int64_ok (VMap m) = true -> int64_ok (VMap m') = true.
+Lemma int64_ok_magnet : forall rf m uri m',
+  parse_magnet_uri rf m uri = LOk m' -> int64_ok (VMap m) = true -> int64_ok (VMap m') = true.
 Proof.
-  intros m uri m' H Hm. unfold parse_magnet_uri in H.
-  destruct (parse_magnet_hash uri) as [[h trackers]| |]; cbn [bind] in H; try discriminate.
+  intros rf m uri m' H Hm. unfold parse_magnet_uri in H.
+  destruct (parse_magnet_hash rf uri) as [[h trackers]| |]; cbn [bind] in H; try discriminate.
   assert (Hi : int64_ok (VMap (map_insert k_info
             (VMap (map_insert k_meta (VInt 1) (map_insert k_name (VStr (to_hex_str h ++ [46; 109; 101; 116; 97]))
                (map_insert k_pieces (VStr h) [])))) m)) = true).
